@@ -1040,10 +1040,154 @@ func halfGrid() []SpzCase {
 	return out
 }
 
+// ---------------------------------------------------------------- sub-check: large clouds
+
+// LargeCase is a recipe (the replay file stays small): N splats with values from a linear
+// congruential sequence, handed to one of the three oracles above. The random cases have at most
+// 48 splats; files of real scenes have 10^4..10^6, and buffers (4 KiB, 32 KiB gzip windows,
+// 1 MiB batches), count widths (8/16 bit) and block layouts only matter at such sizes.
+type LargeCase struct {
+	Kind    string // splat | ply | spz
+	N       int
+	Seed    uint64
+	Version int  `json:",omitempty"` // spz
+	Deg     int  `json:",omitempty"`
+	FB      int  `json:",omitempty"`
+	Level   int  `json:",omitempty"`
+	Normals bool `json:",omitempty"` // ply
+	Rest    int  `json:",omitempty"` // ply: 0 none, 1 three harmonics, 2 all 45
+}
+
+var largeBoundaries = []int{127, 128, 129, 255, 256, 257, 2047, 2048, 2049, 4095, 4096, 4097, 32767, 32768, 32769, 65535, 65536, 65537, 100000}
+
+func genLarge(t *rapid.T) LargeCase {
+	c := LargeCase{Kind: rapid.SampledFrom([]string{"splat", "ply", "spz"}).Draw(t, "kind"), Seed: rapid.Uint64().Draw(t, "seed")}
+	switch rapid.IntRange(0, 2).Draw(t, "nKind") {
+	case 0:
+		c.N = rapid.SampledFrom(largeBoundaries).Draw(t, "nBoundary")
+	case 1: // log-uniform 100 .. 100000
+		c.N = int(math.Round(100 * math.Pow(1000, rapid.Float64Range(0, 1).Draw(t, "nLog"))))
+	default:
+		c.N = rapid.IntRange(100, 100000).Draw(t, "n")
+	}
+	switch c.Kind {
+	case "spz":
+		c.Version = rapid.IntRange(1, 2).Draw(t, "version")
+		c.Deg = rapid.IntRange(0, 3).Draw(t, "deg")
+		c.FB = rapid.IntRange(0, 30).Draw(t, "fb")
+		c.Level = rapid.SampledFrom([]int{gzip.DefaultCompression, gzip.NoCompression, gzip.BestSpeed, gzip.HuffmanOnly}).Draw(t, "level")
+		if c.Deg == 3 && c.N > 40000 {
+			c.Deg = 1 // keeps the stream below ~4 MB
+		}
+	case "ply":
+		c.Normals = rapid.Bool().Draw(t, "normals")
+		c.Rest = rapid.IntRange(0, 2).Draw(t, "rest")
+		if c.Rest == 2 && c.N > 30000 {
+			c.N = 30000 // 45 harmonics x N values
+		}
+	}
+	return c
+}
+
+func runLarge(c LargeCase, o *vh.Obs) *vh.Failure {
+	if c.N < 1 || c.N > 100000 {
+		o.Class("out-of-domain")
+		return nil
+	}
+	x := c.Seed
+	next := func() uint64 {
+		x = x*6364136223846793005 + 1442695040888963407
+		return x >> 33
+	}
+	o.NonTrivial()
+	o.Class("large/" + c.Kind)
+	switch {
+	case c.N > 65535:
+		o.Class("large/count-beyond-16-bit")
+	case c.N >= 32768:
+		o.Class("large/count-32768..65535")
+	case c.N >= 4096:
+		o.Class("large/count-4096..32767")
+	case c.N > 255:
+		o.Class("large/count-256..4095")
+	default:
+		o.Class("large/count-100..255")
+	}
+	sub := &vh.Obs{}
+	if c.Kind == "spz" {
+		sc := SpzCase{Version: c.Version, N: c.N, Deg: c.Deg, FB: c.FB, Flags: 0, Level: c.Level}
+		if sc.Version < 1 || sc.Version > 2 || sc.Deg < 0 || sc.Deg > 3 {
+			o.Class("out-of-domain")
+			return nil
+		}
+		fill := func(k int) []byte {
+			out := make([]byte, k)
+			for i := range out {
+				out[i] = byte(next())
+			}
+			if sc.Version == 1 && k == c.N*6 { // half floats: keep the exponent away from Inf/NaN
+				for i := 1; i < k; i += 2 {
+					if out[i]&0x7c == 0x7c {
+						out[i] &^= 0x04
+					}
+				}
+			}
+			return out
+		}
+		dim := shDims[sc.Deg]
+		sc.Pos, sc.Alpha, sc.Col, sc.Scale, sc.Rot, sc.SH = fill(c.N*sc.posBytes()), fill(c.N), fill(3*c.N), fill(3*c.N), fill(3*c.N), fill(3*dim*c.N)
+		return runSpz(sc, sub)
+	}
+	eighth := func(span int) gen.F { return gen.F(float64(int(next()%uint64(2*span*8+1))-span*8) / 8) }
+	ss := make([]Splat, c.N)
+	for i := range ss {
+		for k := 0; k < 3; k++ {
+			ss[i].Pos[k] = eighth(64)
+			ss[i].Scale[k] = eighth(6)
+			ss[i].FDC[k] = eighth(2)
+		}
+		ss[i].Op = eighth(6)
+		for k := 0; k < 4; k++ {
+			ss[i].Rot[k] = eighth(1)
+		}
+		if ss[i].Rot == [4]gen.F{} {
+			ss[i].Rot[0] = 1
+		}
+	}
+	if c.Kind == "splat" {
+		return runSplat(SplatCase{Splats: ss}, sub)
+	}
+	pc := PlyCase{Splats: ss}
+	if c.Normals {
+		pc.Normals = make([][3]gen.F, c.N)
+		for i := range pc.Normals {
+			pc.Normals[i] = [3]gen.F{eighth(4), eighth(4), eighth(4)}
+		}
+	}
+	ks := []int{}
+	switch c.Rest {
+	case 1:
+		ks = []int{0, 7, 44}
+	case 2:
+		for k := 0; k < 45; k++ {
+			ks = append(ks, k)
+		}
+	}
+	for _, k := range ks {
+		r := RestAttr{K: k, V: make([]gen.F, c.N)}
+		for i := range r.V {
+			r.V[i] = eighth(4)
+		}
+		pc.Rest = append(pc.Rest, r)
+	}
+	return runPly(pc, sub)
+}
+
 func TestC15(t *testing.T) {
 	vh.Drive(t, vh.Spec[SplatCase]{Name: "splat-roundtrip", Quick: 160000, Thorough: 4800000, Gen: genSplatCase, Run: runSplat})
 	vh.Drive(t, vh.Spec[SpzCase]{Name: "spz-decode", Quick: 80000, Thorough: 2400000, Gen: genSpz, Run: runSpz})
 	vh.Drive(t, vh.Spec[PlyCase]{Name: "splat-ply", Quick: 100000, Thorough: 3000000, Gen: genPlyCase, Run: runPly})
+	vh.Drive(t, vh.Spec[LargeCase]{Name: "large", Quick: 200, Thorough: 6000, Gen: genLarge, Run: runLarge})
 	vh.Enumerate(t, vh.Spec[SpzCase]{Name: "spz-half-grid", Run: runSpz,
 		Key: func(c SpzCase) string { return fmt.Sprintf("half-block-%d", binary.LittleEndian.Uint16(c.Pos)) },
 		Sample: func(c SpzCase) any {
